@@ -11,32 +11,45 @@ PROP = dict(
          "last-bit pairs / clusters; per set: Put-build in ascending, descending and random orders (+ replacing updates), "
          "the same mapping as a tree with random label forms (short, long incl. over-long, same) per edge, Get on present and "
          "absent keys, Put on the decoded dictionary; plus leaf-capacity and 7/8/9-bit label boundaries, damaged trees, "
-         "HashmapAugE trees, and every strictly valid Hashmap found in the BOCs of the repo's testdata (decoded, and "
-         "re-encoded: the hash must not change; likewise for generated trees written canonically by the independent encoder). "
+         "HashmapAugE trees (Uint32 and CurrencyCollection extras), typed integer keys outside their declared width, "
+         "NewHashmapE with slices of different lengths, every strictly valid Hashmap found in the BOCs of the repo's "
+         "testdata and in the BOC literals of all *_test.go files (decoded, and re-encoded: the hash must not change; likewise "
+         "for generated trees written canonically by the independent encoder), the augmented dictionaries of the test blocks "
+         "located by the block layout (InMsgDescr, OutMsgDescr, ShardAccountBlocks, ShardAccounts of the Merkle updates with "
+         "their pruned branches, hashmap_aug.hex, the inline transactions dictionary of every AccountBlock) and the out_msgs "
+         "dictionary of every transaction (decode + re-encode to the same hash). "
          "non-trivial = distinct (key type, key set) with >= 2 keys, or a real dictionary",
     trusted_base=[
         "translator HashmapKeys (harness/cmd/extract/hashmapkeys.go): go/ast over tlb/*.go, exact method-body templates; "
         "regenerates lean/TongoGen/HashmapKeys.lean (all 137 key types: FixedSize = bits written = bits read, comparison kind) "
         "with decide-d obligations on every run",
         "hand model lean/TongoModel/Hashmap.lean tied to tlb/hashmap.go by exact correspondence on every run "
-        "(hm.build / hm.putkeys / hm.decput / hm.decode / hm.get / hma.decode / hm.minbits)",
-        "independent dictionary writer/reader in harness/cmd/vh/c05.go (specTree, specParse) used by the go.* oracles",
+        "(hm.build / hm.putkeys / hm.decput / hm.decode / hm.get / hm.new / hmb.* / hma.decode / hmai.decode / hm.minbits)",
+        "independent dictionary writer/readers in harness/cmd/vh/c05.go (specTree, specParse, augParse, goKeyBits) used by "
+        "the go.* oracles; hooks tlb/hashmap_verif.go (read-only accessors for the extras of HashmapAug/HashmapAugE)",
         "value and key codecs of the concrete Go types (Uint32, Bits256, UintN/IntN/BitsN keys) are C03's; here they are "
         "exercised, not proved",
     ],
     assumptions=[
-        "keys are modelled by their encoded bits; typed keys are in range of their declared width (a Go Uint7 holding 200 "
-        "is outside the model)",
-        "the dictionary state is a list of pairs: NewHashmap/NewHashmapE with slices of different lengths is outside the model",
-        "value codecs are parameters: theorems assume, for the values that occur, that the decoder reads back what the encoder wrote (DecodesValue) and "
-        "that a leaf has room for the value next to a full-width label (Fits; coarse bound n + 9 + bitlen n)",
+        "theorems speak about the encoded key bits; the typed layer is modelled on top (encUintKey / encIntKey = what Marshal "
+        "writes for a Go integer key, also outside its declared width; the driver keeps typed keys): a typed key outside its "
+        "domain is outside C05's quantifier — it is stored under its truncation, Int1 outside {0,-1} makes Marshal fail — and by "
+        "marshal_sound it can never corrupt OTHER entries: colliding truncations make Marshal fail (oracle go.hm.oob)",
+        "NewHashmap/NewHashmapE with slices of different lengths is API misuse (documented precondition): modelled "
+        "(marshalSlicesE, itemsSlices; op hm.new): fewer values than keys = Marshal error and Items/Get/Put index panic, surplus "
+        "values ignored; Put on such a dictionary is not modelled",
+        "value codecs are parameters: theorems assume, for the values that occur, that the decoder reads back what the encoder "
+        "wrote (DecodesValue) and that a leaf has room for the value next to a full-width label (Fits: exact bound "
+        "2 + bitlen n + n + value bits <= 1023)",
         "key width n < 2^64 (a Go int); every shipped key type has n <= 512",
     ],
     partial=[
         "HashmapAug/HashmapAugE have no encoder in tongo (MarshalTLB = 'not implemented'): decode side only "
-        "(aug_decode_any_valid), tied by correspondence (hma.decode) with 32-bit values and extras; the extras themselves "
-        "are not observable through Keys()/Values() and are not modelled",
-        "pruned-branch and library cells inside dictionaries: modelled and compared (damaged-tree stream), no theorem",
+        "(aug_decode_any_valid incl. extras tree and root extra, aug_decode_empty, aug_inline_decode_any_valid); the concrete "
+        "extra codecs (Grams, CurrencyCollection, DepthBalanceInfo, ImportFees) live in the driver and are tied by "
+        "correspondence on synthetic and real dictionaries, not proved",
+        "pruned branches: theorems for plain dictionaries (decode_pruned_valid, pruned_agrees_with_full); for augmented "
+        "dictionaries and for library cells correspondence only",
         "AddressWithWorkchain keys with a workchain outside int8: known finding (key type truncates the 32-bit field)",
     ],
     level_text="Theorems for ALL inputs (Lean 4, no sorry/axioms beyond propext/Classical.choice/Quot.sound): "
@@ -50,7 +63,12 @@ PROP = dict(
                "the pre-repair encoder fails on the Int8 witness (decode_then_put_unsorted_fails, by decide); encodeMap on the "
                "numeric slice order of signed keys equals encodeMap on bit order (decode_encode_signed); HashmapAugE decode "
                "(aug_decode_any_valid); the whole property in one statement (build_encode_decode); the encoder's label form is "
-               "the shortest of the three (labels_shortest). "
+               "the shortest of the three (labels_shortest). Round 2: dictionaries inside Merkle proofs (decode_pruned_valid, "
+               "pruned_agrees_with_full: pairs of the un-pruned part in order, Get agrees wherever the key's path is not pruned); "
+               "marshal_sound (for ANY slice, duplicates allowed: Marshal ok => keys distinct and decode = sorted input, so colliding "
+               "or out-of-domain keys can only fail, never corrupt other entries); typed layer (encIntKey_in_range, "
+               "bytes_compare_is_bit_order, slices_agree); exact cell capacity (encode_never_overflows); augmented dictionaries "
+               "with extras, root extra and inline form. "
                "Tie: hand model, compared line by line with the real code on every run (exact tables of Marshal output, "
                "Keys/Values/Items/Get), plus direct oracles on the Go code alone.",
     level_note="trusted: Lean kernel, the hand model's correspondence harness and its independent dictionary writer, "
